@@ -653,6 +653,14 @@ func init() {
 				for _, ins := range b.Instrs {
 					if call, ok := ins.(*ssa.Call); ok && call.Call.StaticCallee() != nil && call.Call.StaticCallee() != segFn {
 						// the fill loop extracted into a helper: filler(table, counter) counter'
+						if tp, cp, ok := offsetFiller(call.Call.StaticCallee()); ok && argFor(&call.Call, tp) == ssa.Value(tableMk) && offsetFillerSegOK(&call.Call, tableMk) {
+							// fills table[i] = counter + i over the whole table and hands back counter + len(table)
+							fillCall[b] = true
+							fillerCalls[call] = true
+							if counter != nil && argFor(&call.Call, cp) != ssa.Value(counter) {
+								threadOK, threadWhy = false, fnName(call.Call.StaticCallee())+" is not given the running counter"
+							}
+						}
 						if tp, cp, ok := sequentialFiller(call.Call.StaticCallee()); ok && argFor(&call.Call, tp) == ssa.Value(tableMk) {
 							fillCall[b] = true
 							fillerCalls[call] = true
@@ -718,6 +726,9 @@ func init() {
 							}
 						case *ssa.Extract:
 							call, ok := x.Tuple.(*ssa.Call)
+							if ok && fillerCalls[call] && x.Index == 0 {
+								break // the next number handed back by a filler of this segment's table
+							}
 							if ok && len(offsetFill) > 0 && call.Call.StaticCallee() != nil && call.Call.StaticCallee() != segFn && x.Index == 0 {
 								// the table was filled as counter+i; the next number comes back from the function
 								// that numbers the copied documents from the counter on
@@ -1585,4 +1596,111 @@ func allDroppedGuardDominates(b *ssa.BasicBlock) bool {
 		}
 	}
 	return false
+}
+
+// offsetFiller: fn(table []uint64, first uint64, …) (uint64, error) fills
+// table[i] = first + i for every i (a loop over the whole table that every
+// successful return passes) and hands back first + len(table); the only other
+// successful return hands back first itself and lies behind a test that the
+// receiver segment has no documents (then the table, which the caller sizes by
+// that count, is empty).
+func offsetFiller(fn *ssa.Function) (table, counter *ssa.Parameter, ok bool) {
+	if fn == nil || fn.Blocks == nil || fn.Signature.Results().Len() != 2 {
+		return nil, nil, false
+	}
+	counter = paramOfType(fn, "uint64")
+	if counter == nil {
+		return nil, nil, false
+	}
+	for _, tp := range paramsOfType(fn, "[]uint64") {
+		var loop *ssa.BasicBlock
+		for _, b := range fn.Blocks {
+			if isLoopHeader(b) && isOffsetFillLoop(b, tp, counter) {
+				if xx, name, ok := lenOrCapOf(b.Instrs[len(b.Instrs)-1].(*ssa.If).Cond.(*ssa.BinOp).Y); ok && name == "len" && xx == ssa.Value(tp) {
+					loop = b
+				}
+			}
+		}
+		if loop == nil {
+			continue
+		}
+		good := true
+		n := 0
+		for _, rb := range maySucceedReturns(fn) {
+			ret := rb.Instrs[len(rb.Instrs)-1].(*ssa.Return)
+			v := stripConv(resolveLoad(ret.Results[0]))
+			if loop.Dominates(rb) {
+				// first + len(table)
+				bin, isBin := v.(*ssa.BinOp)
+				if !isBin || bin.Op != token.ADD {
+					good = false
+					continue
+				}
+				a, l := bin.X, bin.Y
+				if a != ssa.Value(counter) {
+					a, l = l, a
+				}
+				xx, name, isLen := lenOrCapOf(l)
+				if a != ssa.Value(counter) || !isLen || name != "len" || xx != ssa.Value(tp) {
+					good = false
+				}
+				n++
+				continue
+			}
+			// before the fill: only the "no documents" exit, which hands back the counter unchanged
+			if v != ssa.Value(counter) || !noDocsGuardDominates(fn, rb) {
+				good = false
+			}
+		}
+		if good && n > 0 {
+			return tp, counter, true
+		}
+	}
+	return nil, nil, false
+}
+
+// noDocsGuardDominates: rb lies behind the edge of a test of the receiver's
+// footer.numDocs on which it is zero (`numDocs <= 0`, `numDocs == 0`).
+func noDocsGuardDominates(fn *ssa.Function, rb *ssa.BasicBlock) bool {
+	if len(fn.Params) == 0 {
+		return false
+	}
+	for _, tb := range fn.Blocks {
+		ifi, ok := tb.Instrs[len(tb.Instrs)-1].(*ssa.If)
+		if !ok {
+			continue
+		}
+		bin, ok := ifi.Cond.(*ssa.BinOp)
+		if !ok {
+			continue
+		}
+		if x, isND := numDocsOf(bin.X); !isND || x != ssa.Value(fn.Params[0]) {
+			continue
+		}
+		if k, isK := constInt(bin.Y); !isK || k != 0 {
+			continue
+		}
+		var e *ssa.BasicBlock
+		switch bin.Op {
+		case token.LEQ, token.EQL:
+			e = tb.Succs[0]
+		case token.GTR, token.NEQ:
+			e = tb.Succs[1]
+		}
+		if e != nil && len(e.Preds) == 1 && (e == rb || e.Dominates(rb)) {
+			return true
+		}
+	}
+	return false
+}
+
+// offsetFillerSegOK: when the filler has a no-documents exit that relies on the
+// table being sized by its receiver's document count, the receiver is the
+// segment whose count sized this table.
+func offsetFillerSegOK(cc *ssa.CallCommon, tableMk *ssa.MakeSlice) bool {
+	x, ok := numDocsOf(tableMk.Len)
+	if !ok || len(cc.Args) == 0 {
+		return false
+	}
+	return cc.Args[0] == x || accessPath(cc.Args[0]) == accessPath(x)
 }
